@@ -1,5 +1,8 @@
 use crate::marker::MarkerString;
 use serde::Serialize;
+#[cfg(kani)]
+use crate::verif_shim::map::HashMap;
+#[cfg(not(kani))]
 use std::collections::HashMap;
 
 #[derive(Serialize, Debug, Clone)]
